@@ -30,6 +30,44 @@ theorem xor_two_pow_of_ge {a k : Nat} (h1 : 2 ^ k ≤ a) (h2 : a < 2 ^ (k + 1)) 
   rw [hdiv] at e2
   omega
 
+/-- generic sign relocation into bit `k`: every |s| < 2^k is restored and the field fits k+1 bits -/
+theorem sign_restore_prepare (k : Nat) (s : Int) (hlo : -(2 ^ k : Int) < s) (hhi : s < (2 ^ k : Int)) :
+    let f := if s < 0 then (-s).toNat ^^^ 2 ^ k else s.toNat
+    (if f / 2 ^ k % 2 = 1 then -((f ^^^ 2 ^ k : Nat) : Int) else (f : Int)) = s ∧ f < 2 ^ (k + 1) := by
+  intro f
+  have hpos : 0 < 2 ^ k := Nat.pow_pos (by omega)
+  have hpow : (2 : Nat) ^ (k + 1) = 2 * 2 ^ k := by rw [Nat.pow_succ]; omega
+  have hcast : ((2 ^ k : Nat) : Int) = (2 : Int) ^ k := by simp
+  by_cases hs : s < 0
+  · have hm : (-s).toNat < 2 ^ k := by
+      have : ((-s).toNat : Int) = -s := Int.toNat_of_nonneg (by omega)
+      omega
+    have hf : f = (-s).toNat + 2 ^ k := by
+      show (if s < 0 then (-s).toNat ^^^ 2 ^ k else s.toNat) = _
+      rw [if_pos hs, xor_two_pow_of_lt hm]
+    have hbit : ((-s).toNat + 2 ^ k) / 2 ^ k % 2 = 1 := by
+      rw [Nat.add_div_right _ hpos, Nat.div_eq_of_lt hm]
+    have hback : ((-s).toNat + 2 ^ k) ^^^ 2 ^ k = (-s).toNat := by
+      rw [xor_two_pow_of_ge (by omega) (by rw [Nat.pow_succ]; omega)]; omega
+    rw [hf]
+    refine ⟨?_, by rw [hpow]; omega⟩
+    rw [if_pos hbit, hback]
+    have : ((-s).toNat : Int) = -s := Int.toNat_of_nonneg (by omega)
+    omega
+  · have hn : 0 ≤ s := by omega
+    have hm : s.toNat < 2 ^ k := by
+      have : (s.toNat : Int) = s := Int.toNat_of_nonneg hn
+      omega
+    have hf : f = s.toNat := by
+      show (if s < 0 then (-s).toNat ^^^ 2 ^ k else s.toNat) = _
+      rw [if_neg hs]
+    have hbit : ¬ (s.toNat / 2 ^ k % 2 = 1) := by
+      rw [Nat.div_eq_of_lt hm]; simp
+    rw [hf]
+    refine ⟨?_, by rw [hpow]; omega⟩
+    rw [if_neg hbit]
+    exact Int.toNat_of_nonneg hn
+
 namespace External
 
 theorem enc_length (v : Nat) : (enc v).length = extLen v := by simp [enc]
